@@ -106,6 +106,20 @@ def run_unit(u, rec):
             rec.close(err[i], 1e4 * EPS * (1 + mag) * scale, f"C08/translation/{e.name}", "stepping a translated state is not the translated result",
                       D=D, N=N, order=order, state=si, shift=list(shifts[i]))
             rec.outcome_array(base.ravel()[:: max(1, base.size // 8)])
+        # the sub-stepping wrapper is an autonomous stepper as well: all translations of the white-noise-like state through RepeatedStepper(st, 2)
+        if order == orders[len(orders) // 2]:
+            rs = ex.RepeatedStepper(st, 2)
+            vrs = jax.jit(jax.vmap(rs))
+            base = np.asarray(rs(jnp.asarray(pat)))
+            if np.all(np.isfinite(base)):
+                got = np.asarray(vrs(jnp.asarray(np.stack([np.roll(pat, sh, axis=spatial) for sh in shifts]))))
+                want = np.stack([np.roll(base, sh, axis=spatial) for sh in shifts])
+                scale = max(1.0, float(np.max(np.abs(base))))
+                err = np.max(np.abs(got - want).reshape(len(shifts), -1), axis=1)
+                i = int(np.argmax(err))
+                rec.count(states=len(shifts), transitions=len(shifts), traces=len(shifts))
+                rec.close(err[i], 2e4 * EPS * (1 + mag) * scale, f"C08/translation_repeated/{e.name}", "sub-stepping (RepeatedStepper) a translated state is not the translated result",
+                          D=D, N=N, order=order, shift=list(shifts[i]))
         # ---------------------------------------------------------------- axis permutations
         if D >= 2 and e.iso:
             for perm in itertools.permutations(range(D)):
